@@ -16,9 +16,12 @@ Check(e) ==
   LET pat == [left |-> e.left, body |-> Chars(e.body), right |-> e.right]
       req == [url |-> Chars(e.url), hs |-> e.hs, he |-> e.he]
       allowed == IF Degenerate(pat) THEN {TRUE, FALSE} ELSE IdealMatch(pat, req)
-  IN IF e.obs \in allowed THEN TRUE
+      \* obs is logged as "T" / "F" / "panic" / "unstable" (first answer differs from the answer after
+      \* the compiled regex was discarded and rebuilt); only "T"/"F" can be allowed
+      ok == (e.obs = "T" /\ TRUE \in allowed) \/ (e.obs = "F" /\ FALSE \in allowed)
+  IN IF ok THEN TRUE
      ELSE PrintT(ToJson([ev |-> "MISMATCH", at |-> l, rule |-> e.rule, url |-> e.url,
-                         observed |-> e.obs, allowed |-> allowed,
+                         observed |-> (IF e.obs = "T" THEN TRUE ELSE IF e.obs = "F" THEN FALSE ELSE e.obs), allowed |-> allowed,
                          model |-> ImplMatch(pat, req), devs |-> DevNames(pat, req)]))
 
 Next == l <= Len(Rec) /\ Check(Rec[l]) /\ l' = l + 1
